@@ -9,7 +9,7 @@ import copy
 import pool
 from gen import Gen, REGEXES
 
-LEVEL = "proof"
+LEVEL = "translation_validation"
 COQ_FILES = ["theories/Model/Validate.v"]
 FACT_GROUPS = ["F1", "F2", "F3", "F5", "F6"]
 ALLOWED_AXIOMS = []
